@@ -108,7 +108,9 @@ pub fn worker(prop: &dyn Property, tier: Tier, batch_seed: u64, start: u64, step
                 }
             }
             // sampled in-process determinism re-check
-            if (i + k as u64) % 64 == 0 {
+            // (not for C06: there a run that is not a function of its scenario IS the violation, and its judge
+            // repeats executions itself)
+            if (i + k as u64) % 64 == 0 && prop.id() != "C06" {
                 let v2 = prop.judge(sc);
                 st.determinism_rechecks += 1;
                 if v2.key != v.key || v2.summary != v.summary || v2.violation != v.violation {
@@ -262,12 +264,19 @@ fn write_replay(cfg: &CheckConfig, rf: &ReplayFile, tag: &str) -> String {
 
 /// Run `<bin> replay <file>` in a fresh process; true iff the stored class recurs (exit code 1).
 pub fn replay_in_fresh_process(bin: &str, path: &str) -> bool {
-    let st = Command::new(bin)
-        .args(["replay", path])
-        .stdout(Stdio::null())
-        .stderr(Stdio::null())
-        .status();
-    matches!(st.map(|s| s.code()), Ok(Some(1)))
+    // an address-dependent C06 violation reproduces statistically, so a few fresh processes are tried there
+    let tries = if path.contains("/C06-") { 5 } else { 1 };
+    for _ in 0..tries {
+        let st = Command::new(bin)
+            .args(["replay", path])
+            .stdout(Stdio::null())
+            .stderr(Stdio::null())
+            .status();
+        if matches!(st.map(|s| s.code()), Ok(Some(1))) {
+            return true;
+        }
+    }
+    false
 }
 
 pub fn run_check(prop: &dyn Property, tier_s: &str, cfg: &CheckConfig) -> i32 {
@@ -396,6 +405,7 @@ pub fn run_check(prop: &dyn Property, tier_s: &str, cfg: &CheckConfig) -> i32 {
     let mut known_hits: BTreeMap<String, u64> = BTreeMap::new();
     let mut reported_classes: BTreeSet<String> = BTreeSet::new();
     let mut strict_checked: BTreeMap<String, u32> = BTreeMap::new();
+    let mut unconfirmed = 0u32;
     violations.sort_by_key(|(_, v)| v.index);
     for (profile, v) in &violations {
         if let Some(k) = known::matches(&known, prop.id(), &v.class, &v.scenario) {
@@ -422,8 +432,21 @@ pub fn run_check(prop: &dyn Property, tier_s: &str, cfg: &CheckConfig) -> i32 {
         }
         // confirm, minimise, replay in a fresh process
         let bin = cfg.bins.iter().find(|(p, _)| p == profile).map(|(_, b)| b.clone()).unwrap_or(self_bin.clone());
-        let confirm = prop.judge(&v.scenario).violation.map(|(c, _)| c);
+        let mut confirm = prop.judge(&v.scenario).violation.map(|(c, _)| c);
+        if prop.id() == "C06" {
+            for _ in 0..4 {
+                if confirm.as_deref() == Some(&v.class) {
+                    break;
+                }
+                confirm = prop.judge(&v.scenario).violation.map(|(c, _)| c);
+            }
+        }
         if profile_of_self(cfg, &self_bin) == *profile && confirm.as_deref() != Some(&v.class) {
+            if prop.id() == "C06" {
+                // an output that depends on allocation addresses recurs only statistically; try the next candidate
+                unconfirmed += 1;
+                continue;
+            }
             eprintln!("harness error: violation {} at seed {} does not reproduce in-process (got {:?})", v.class, v.seed, confirm);
             exit_code = exit_code.max(2);
             continue;
@@ -454,6 +477,11 @@ pub fn run_check(prop: &dyn Property, tier_s: &str, cfg: &CheckConfig) -> i32 {
         };
         let path = write_replay(cfg, &rf, "");
         if !replay_in_fresh_process(&bin, &path) {
+            if prop.id() == "C06" {
+                unconfirmed += 1;
+                let _ = std::fs::remove_file(&path);
+                continue;
+            }
             eprintln!("harness error: replay {path} does not reproduce in a fresh process");
             exit_code = exit_code.max(2);
             continue;
@@ -518,11 +546,15 @@ pub fn run_check(prop: &dyn Property, tier_s: &str, cfg: &CheckConfig) -> i32 {
                     exit_code = exit_code.max(1);
                     reported_classes.insert("process-divergence".into());
                 } else {
-                    eprintln!("harness error: cross-process divergence at index {i} did not recur in 12 fresh processes");
-                    exit_code = exit_code.max(2);
+                    unconfirmed += 1;
+                    let _ = std::fs::remove_file(&path);
                 }
             }
         }
+    }
+    if unconfirmed > 0 && exit_code == 0 {
+        eprintln!("harness error: {unconfirmed} output divergences were observed but none could be reproduced from its replay file");
+        exit_code = 2;
     }
     for (what, n) in &known_hits {
         println!("KNOWN-FINDING: property={} {} ({} occurrences in this batch)", prop.id(), what, n);
